@@ -98,3 +98,19 @@ package config
 //@   ensures[C14] result1 == nil ==> (result0 != nil && len(result0.ChainKey) == 32)
 //@   assert_at[C14] DeriveScalar "bip32.DeriveScalar(publicPoint, c.ChainKey, i)": arg1 == c.ChainKey && arg2 == i
 //@   assert_at[C14] Derive "return c.Derive(scalar, newChainKey)": arg0 == c && called(DeriveScalar)
+
+// ---- storing (C15, C05): a well-formed configuration can always be encoded without a panic (every party record is
+// complete, the Paillier key has its primes); the sorted party list holds keys of the table only
+//@ func (*Config).MarshalBinary
+//@   nopanic[C05,C15]
+//@   requires cfgwf(c) && c.Paillier.p != nil && c.Paillier.q != nil
+//@   loop 1: invariant fresh(ps) && forall(k, party.ID, inslice(rangeslice, k) ==> indom(c.Public, k))
+//@   loop 1: invariant cfgwf(c) && c.Paillier.p != nil && c.Paillier.q != nil
+//@ func (*Config).PartyIDs
+//@   nopanic[C05]
+//@   requires c != nil
+//@   modifies nothing
+//@   allocates
+// the sorted list holds keys of the table only
+//@   ensures[C15,C05] forall(k, party.ID, inslice(result, k) ==> indom(c.Public, k))
+//@   loop 1: invariant fresh(ids) && forall(k, party.ID, inslice(ids, k) ==> indom(c.Public, k))
